@@ -169,7 +169,16 @@ func (e *env) capSafe(n int) bool {
 	return true
 }
 
-func (e *env) capApply(n int) {
+func (e *env) capApply(root common.Hash, n int) {
+	if e.branched {
+		if n == 0 {
+			// Cap(root, 0) replaces the whole tree by one disk layer: every branch is gone
+			e.chain, e.members, e.genAlive, e.branched = nil, nil, false, false
+			e.chainTip = root
+			e.layerRoots = map[common.Hash]bool{root: true}
+		}
+		return
+	}
 	k := len(e.chain) - n
 	if n == 0 {
 		k = len(e.chain)
@@ -457,8 +466,10 @@ func (e *env) exec(p op) (res string, panicked bool) {
 		if e.snaps != nil {
 			if err := e.snaps.Cap(e.byLab[p.a], int(p.v)); err == nil {
 				e.caps++
+			} else {
+				return
 			}
-			e.capApply(int(p.v))
+			e.capApply(e.byLab[p.a], int(p.v))
 		}
 	case "LR":
 	case "CP":
@@ -716,16 +727,21 @@ func (cr *caseRun) verifyLayers(root common.Hash) {
 	switch {
 	case err == nil:
 		cr.o.Count("oracle.snap-verify-checked")
-	case strings.Contains(err.Error(), "state root hash mismatch"):
-		cr.o.Fail(cr.step, "snap-verify", fmt.Sprintf("root %s: %v", root.Hex()[:10], err))
-	default:
+	case strings.Contains(err.Error(), "stale") || strings.Contains(err.Error(), "not constructed") || strings.Contains(err.Error(), "missing") || strings.Contains(err.Error(), "unknown"):
 		cr.o.Count("oracle.snap-verify-skipped")
+	default: // "state root hash mismatch", "invalid subroot" (an account's storage root), ...
+		cr.o.Fail(cr.step, "snap-verify", fmt.Sprintf("root %s: %v", root.Hex()[:10], err))
 	}
 }
 
 // commit = Commit on handle h; on the snapshot-tree database optionally followed by Cap (capd-1 layers
 // kept) when the tree's shape allows it, and by direct reads of the layers.
 func (cr *caseRun) commit(h int, de bool, dump string, capd int) string {
+	return cr.commitF(h, de, dump, capd, false)
+}
+
+// commitF: force = Cap even though the tree has branched (the caller knows the shape: see famSiblingCap).
+func (cr *caseRun) commitF(h int, de bool, dump string, capd int, force bool) string {
 	v := int64(0)
 	if de {
 		v = 1
@@ -737,11 +753,12 @@ func (cr *caseRun) commit(h int, de bool, dump string, capd int) string {
 	e2 := cr.e2
 	root := e2.lastRoot
 	cr.layerReads(root, 0)
-	if capd > 0 && e2.lastCapOK {
+	if capd > 0 && (e2.lastCapOK || force) {
 		// (not while an open StateDB is attached to a layer whose maps flatten would share: known finding, exhibited by famFlattenAliasing only)
-		if cr.aliasing || e2.capSafe(capd-1) {
+		if cr.aliasing || force || e2.capSafe(capd-1) {
 			cr.do(op{h: h, code: "KP", a: e2.label(root), v: int64(capd - 1), dump: "N", pre: "-"})
 			cr.layerReads(root, 5)
+			cr.verifyLayers(root) // the disk layer's own iterators see what Cap wrote to the database (not only its cache)
 		} else {
 			cr.o.Count("snap.cap-skipped-open-state-on-mid-layer")
 		}
@@ -1212,8 +1229,8 @@ func (cr *caseRun) famCopyCaches(cur int) int {
 	k2 := e.uk[(indexOf(e.uk, k)+1+r.Intn(2))%3]
 	l := cr.lin[cur]
 	cr.do(op{h: cur, code: "SS", a: a, k: k, v: int64(1 + r.Intn(3)), dump: cr.spec(a, k)})
-	if r.Bool() {
-		cr.do(op{h: cur, code: "AB", a: a, v: int64(1 + r.Intn(3)), dump: cr.spec(a, -1)})
+	if r.Chance(3, 4) {
+		cr.do(op{h: cur, code: "AB", a: a, v: int64(1 + r.Intn(3)), dump: cr.spec(a, -1)}) // mostly not an empty account
 	}
 	cr.do(op{h: cur, code: "IR", v: int64(r.Pick(1, 2)), dump: cr.spec(a, k)})
 	nh := cr.nextH
@@ -1364,6 +1381,86 @@ func (cr *caseRun) famFlattenAliasing(cur int) {
 	cr.reopenTip(hs[0], true, 1) // Cap(root, 0)
 	cr.o.Count("family.flatten-aliasing-known-finding")
 	cr.do(op{h: hs[1], code: "DU", dump: "F"}) // reads slot k of the contract: 0 at its root
+}
+
+// famSiblingCap: two blocks on the same parent layer (a fork); one branch is flattened into the disk layer
+// (Cap(root, 0) merges it INTO the shared parent, which thereby becomes stale and holds the other branch's
+// sibling's data); the StateDB on the other branch must not see any of it.
+func (cr *caseRun) famSiblingCap(cur int) int {
+	r, e := cr.r, cr.e
+	ai := r.Intn(3)
+	a, b := e.ua[ai], e.ua[(ai+1)%3]
+	ki := r.Intn(3)
+	k, k2 := e.uk[ki], e.uk[(ki+1)%3]
+	cr.do(op{h: cur, code: "NO", a: b, v: 5, dump: cr.spec(b, -1)})
+	cur = cr.reopenTip(cur, false, 1)
+	if cr.snapBroken || cr.e2.branched || len(cr.e2.chain) != 0 || cr.e2.attach[cur] != cr.e2.chainTip {
+		return cur
+	}
+	// the shared parent P
+	cr.do(op{h: cur, code: "SS", a: a, k: k2, v: 3, dump: cr.spec(a, k2)})
+	cr.do(op{h: cur, code: "NO", a: a, v: 1, dump: cr.spec(a, -1)}) // not an empty account: it survives Commit(true)
+	cr.do(op{h: cur, code: "NO", a: b, v: 1, dump: cr.spec(b, -1)})
+	res := cr.commit(cur, false, "F", 0)
+	var lab int
+	if n, _ := fmt.Sscanf(res, "r%d", &lab); n != 1 {
+		return cur
+	}
+	var hs [2]int
+	for i := range hs {
+		nh := cr.nextH
+		cr.nextH++
+		cr.lin[nh] = &lineage{ok: true, base: e.byLab[lab], clean: true, snapDump: map[int]string{}}
+		cr.do(op{h: cur, code: "NW", a: nh, v: int64(lab), dump: "N"})
+		if e.hs[nh] == nil {
+			return cur
+		}
+		hs[i] = nh
+	}
+	// branch 1 does not touch a.k2 nor b
+	cr.do(op{h: hs[0], code: "SS", a: a, k: k, v: int64(1 + r.Intn(3)), dump: cr.spec(a, k)})
+	res = cr.commit(hs[0], true, "F", 0)
+	if n, _ := fmt.Sscanf(res, "r%d", &lab); n != 1 {
+		return cur
+	}
+	// opened now, read only after the other branch has been flattened (nothing cached in the StateDB yet)
+	t1 := cr.nextH
+	cr.nextH++
+	cr.lin[t1] = &lineage{ok: true, base: e.byLab[lab], clean: true, snapDump: map[int]string{}}
+	cr.do(op{h: hs[0], code: "NW", a: t1, v: int64(lab), dump: "N"})
+	if e.hs[t1] == nil {
+		return cur
+	}
+	// branch 2 overwrites both, possibly after destructing the contract, and goes to disk
+	if r.Chance(1, 3) {
+		cr.do(op{h: hs[1], code: "SU", a: a, dump: cr.spec(a, k2)})
+		cr.do(op{h: hs[1], code: "FI", v: 1, dump: cr.spec(a, k2)})
+	}
+	cr.do(op{h: hs[1], code: "SS", a: a, k: k2, v: int64(1 + r.Intn(2)), dump: cr.spec(a, k2)})
+	cr.do(op{h: hs[1], code: "NO", a: b, v: 2, dump: cr.spec(b, -1)})
+	cr.do(op{h: hs[1], code: "DU", dump: "F"})
+	res = cr.commitF(hs[1], true, "F", 1, true)
+	t2 := hs[1]
+	if n, _ := fmt.Sscanf(res, "r%d", &lab); n == 1 {
+		nh := cr.nextH
+		cr.nextH++
+		cr.lin[nh] = &lineage{ok: true, base: e.byLab[lab], clean: true, snapDump: map[int]string{}}
+		cr.do(op{h: hs[1], code: "NW", a: nh, v: int64(lab), dump: "N"})
+		if e.hs[nh] != nil {
+			t2 = nh
+			cr.do(op{h: t2, code: "DU", dump: "F"})
+		}
+	}
+	// branch 1 reads what branch 2 overwrote: its layer's parent is stale now
+	cr.do(op{h: t1, code: "DU", dump: "F"})
+	cr.do(op{h: t1, code: "SS", a: a, k: k2, v: int64(r.Intn(4)), dump: "F"})
+	cr.do(op{h: t1, code: "AB", a: b, v: int64(r.Intn(3)), dump: "F"})
+	t1 = cr.reopenTip(t1, r.Bool(), 0)
+	cr.o.Count("family.sibling-branch-flattened")
+	if r.Bool() {
+		return t1
+	}
+	return t2
 }
 
 // famDeepChain: more than 128 diff layers on one chain, so that Commit's own Cap(root, 128) flattens the
@@ -1539,7 +1636,7 @@ func (cr *caseRun) generate() {
 		}
 		live = append(live, h)
 	}
-	fam := r.Pick(22, 4, 2, 2)
+	fam := r.Pick(22, 4, 2, 2, 2)
 	deep := r.Chance(1, 250)
 	switch os.Getenv("C08FAM") { // development aid: force one family in every case
 	case "lifecycle":
@@ -1548,6 +1645,8 @@ func (cr *caseRun) generate() {
 		fam = 2
 	case "stale":
 		fam = 3
+	case "sibling":
+		fam = 4
 	case "deep":
 		deep = true
 	}
@@ -1560,6 +1659,9 @@ func (cr *caseRun) generate() {
 		addLive(cur)
 	case 3:
 		cur = cr.famStaleLayer(cur)
+		addLive(cur)
+	case 4:
+		cur = cr.famSiblingCap(cur)
 		addLive(cur)
 	}
 	if deep {
@@ -1720,7 +1822,9 @@ func (cr *caseRun) generate() {
 			cr.lin[nh] = &lineage{ok: true, base: e.byLab[lab], clean: true, snapDump: map[int]string{}}
 			cr.do(op{h: h, code: "NW", a: nh, v: int64(lab), dump: "N"})
 			if e.hs[nh] != nil {
-				cr.do(op{h: nh, code: "DU", dump: "F"})
+				if r.Bool() { // otherwise its first reads happen later, perhaps after the tree has moved on
+					cr.do(op{h: nh, code: "DU", dump: "F"})
+				}
 				live = append(live, nh)
 			}
 		}
